@@ -174,9 +174,12 @@ be_pair_transfer(struct bufferevent *src, struct bufferevent *dst,
 	}
 
 	if (n) {
-		BEV_RESET_GENERIC_READ_TIMEOUT(dst);
+		/* (a flush also transfers to a partner that is not reading) */
+		if (dst->enabled & EV_READ)
+			BEV_RESET_GENERIC_READ_TIMEOUT(dst);
 
-		if (evbuffer_get_length(dst->output))
+		if (evbuffer_get_length(dst->output) &&
+		    (dst->enabled & EV_WRITE))
 			BEV_RESET_GENERIC_WRITE_TIMEOUT(dst);
 		else
 			BEV_DEL_GENERIC_WRITE_TIMEOUT(dst);
